@@ -91,7 +91,11 @@ def make_pair(r, o=None):
        pfs: None | True | False; modes/protos restrictions."""
     o = dict(o or {})
     fam = o.get('family') or r.choice([4, 4, 4, 6])
-    if fam == 4:
+    if o.get('addr_pair'):
+        a_addr, b_addr = o['addr_pair']
+        a_nets = b_nets = []
+        o.setdefault('mode', 'transport')
+    elif fam == 4:
         a_addr, b_addr = '10.0.0.1', '10.0.0.2'
         a_nets = ['10.1.0.0/16', '10.1.1.0/24', '10.1.1.128/25', '192.168.7.0/24']
         b_nets = ['10.2.0.0/16', '10.2.2.0/24', '10.2.2.64/26', '172.16.0.0/12']
@@ -172,7 +176,7 @@ def make_pair(r, o=None):
             else:
                 ap = r.choice([0, 0, 1, 22, 255, 256, 4500, 65535])
                 bp = r.choice([0, 80, 23, 1, 255, 256, 443, 65535])
-            if mode == 'transport':
+            if mode == 'transport' or not a_nets:
                 an, bn = None, None
             else:
                 an = r.choice(a_nets + [None])
